@@ -44,6 +44,8 @@ type Profile struct {
 	OnCompleteFill int
 	LateAdd        bool
 	Epilogues      []string
+	NoDecorPct     int  // percent of bars without any decorator (besides the row tag)
+	ChurnW         int  // weight of the macro "finish a bar, two render cycles, add the next bar" (one leaves, one joins between two frames)
 	PrioExtreme    bool // priorities from the whole int range now and then
 	Faults         int  // percent of scenarios with one filler/extender fault
 	PtyRowsMax     int
@@ -125,7 +127,7 @@ func genBarSpec(t *rapid.T, prof *Profile, idx int, succOf map[int]bool) engine.
 		b.OnComplete = true
 		b.OnAbort = rapid.Bool().Draw(t, "onabortfill")
 	}
-	for side := 0; side < 2; side++ {
+	for side := 0; side < 2 && !pct(t, prof.NoDecorPct, "nodecor"); side++ {
 		if prof.SyncDecors > 0 {
 			ns := rapid.IntRange(0, prof.SyncDecors).Draw(t, "nsync")
 			for i := 0; i < ns; i++ {
@@ -395,6 +397,27 @@ func genSteps(t *rapid.T, prof *Profile, sc *engine.Scenario) []engine.Step {
 					}
 				}})
 			}
+		}
+		if prof.ChurnW > 0 && len(live) > 0 && nextAdd < nb && sc.Cfg.Refresh != "none" && sc.Cfg.Refresh != "autort" {
+			cs = append(cs, choice{prof.ChurnW, func() {
+				i := pickLive("churnbar")
+				var st engine.Step
+				if rapid.Bool().Draw(t, "churnabort") {
+					st = engine.Step{Op: "abort", Bar: i, Flag: true}
+				} else {
+					st = engine.Step{Op: "settotal", Bar: i, N: -1, Flag: true}
+					if gb[i].m.Trig {
+						st = engine.Step{Op: "setcur", Bar: i, N: gb[i].m.Total}
+						if gb[i].m.Total < 0 {
+							st = engine.Step{Op: "abort", Bar: i, Flag: true}
+						}
+					}
+				}
+				gb[i].m.Apply(&st)
+				steps = append(steps, st, engine.Step{Op: "tick"}, engine.Step{Op: "tick"})
+				add()
+				steps = append(steps, engine.Step{Op: "tick"})
+			}})
 		}
 		if prof.PostTerm && len(term) > 0 {
 			cs = append(cs, choice{4, func() {
